@@ -276,6 +276,82 @@ pub fn eval_history(case: &HistoryCase) -> HistoryEval {
     }
 }
 
+impl HistoryCheck {
+    /// Long history on a small graph: one run with a random configuration, then one
+    /// configuration repeated 256..=319 times (thorough, one case in twenty: 65 600
+    /// times), every repetition driven by the default policy and compared with the
+    /// same run on a fresh graph.  Reaches per-graph bookkeeping that only
+    /// misbehaves after many runs (a wrapping generation counter, a growing cache).
+    fn run_long(&self, spec: GraphSpec, ct: &mut Tape, want_decoded: bool) -> CaseReport {
+        let n = spec.n();
+        let mut g = build_graph(&spec);
+        let facts = GraphFacts::new(&spec, &g);
+        let mut earlier = vec![];
+        let c0 = decode_cfg(ct, &self.profile, n, INTR);
+        let r0 = run_on(&mut g, facts.clone(), &c0, Schedule::Tape(&mut Tape::new(&[]), 0, None));
+        earlier.push(Earlier::Run { cfg: c0, acts: r0.acts, keep: false });
+        let rc = decode_cfg(ct, &self.profile, n, INTR);
+        let k = if self.thorough && ct.chance(1, 20) { 65_600 } else { 256 + ct.below(64) };
+        let mut gf = build_graph(&spec);
+        let exp = run_on(&mut gf, facts.clone(), &rc, Schedule::Tape(&mut Tape::new(&[]), 0, None));
+        drop(gf);
+        let mut violations = vec![];
+        let mut last_acts = exp.acts.clone();
+        let mut last_ret = exp.ret.clone();
+        let mut last_trace = exp.trace.clone();
+        let mut done = 0usize;
+        for _ in 0..k {
+            let r = run_on(&mut g, facts.clone(), &rc, Schedule::Tape(&mut Tape::new(&[]), 0, None));
+            done += 1;
+            if r.trace != exp.trace || r.ret != exp.ret {
+                violations.push(v(
+                    "C15",
+                    "reused-graph-behaves-differently",
+                    format!(
+                        "run #{} on the same graph value gave trace={:?} ret={:?}; on a fresh graph trace={:?} ret={:?}",
+                        done + 1, r.trace, r.ret, exp.trace, exp.ret
+                    ),
+                ));
+                violations.extend(r.violations.iter().cloned());
+                last_acts = r.acts;
+                last_ret = r.ret;
+                last_trace = r.trace;
+                break;
+            }
+            // keep the stored history short unless it is needed: only lengths matter
+            if earlier.len() < 70_000 {
+                earlier.push(Earlier::Run { cfg: rc.clone(), acts: r.acts, keep: false });
+            }
+        }
+        if violations.is_empty() {
+            // the last repetition is the "last run" of the history
+            earlier.pop();
+        }
+        let abnormal = !matches!(exp.ret, Ret::Out(ref o) if o.state == "Finished") && !matches!(exp.ret, Ret::Cont(_) | Ret::StreamEnd);
+        let hash = hash_of(&(&spec, &rc, earlier.len(), &earlier[0]));
+        let labels = vec![
+            format!("size:{}", size_class(n)),
+            format!("earlier_runs:{}", if earlier.len() > 60_000 { ">65535" } else { "256..320" }),
+            format!("last_api:{}", rc.api.name()),
+            format!("last_ret:{}", last_ret.label()),
+            "history:long_repetition".to_string(),
+        ];
+        let case = HistoryCase { spec, earlier, last_cfg: rc, last_acts };
+        CaseReport {
+            nontrivial: abnormal,
+            hash,
+            labels,
+            decoded: if want_decoded || !violations.is_empty() {
+                Some(json!({"kind": "history", "intr_build": INTR, "case": case, "trace": last_trace, "ret": last_ret}))
+            } else {
+                None
+            },
+            violations,
+            executions: done as u64 + 2,
+        }
+    }
+}
+
 impl Check for HistoryCheck {
     fn name(&self) -> String {
         "history:C15".into()
@@ -293,6 +369,9 @@ impl Check for HistoryCheck {
         let n = spec.n();
         let mut ct = Tape::new(&tapes[1]);
         let mut st = Tape::new(&tapes[2]);
+        if (2..=8).contains(&n) && ct.chance(1, 600) {
+            return self.run_long(spec, &mut ct, want_decoded);
+        }
         let mut g = build_graph(&spec);
         let mut left = Leftovers(Vec::new());
         let facts = GraphFacts::new(&spec, &g);
